@@ -13,6 +13,8 @@ lines are text that belongs to the most recent text-taking directive.
     @@start                              text inserted right after the body `{`
     @@after <anchor> [@@k=<n>|last]      text inserted after the line containing <anchor>
     @@before <anchor> [@@k=<n>|last]     text inserted before the line containing <anchor>
+    @@end                                text inserted before the last code line of the body (the tail expression, descending
+                                         into trailing blocks); use only when that line is a simple expression
     @@loop <k>                           text inserted before the `{` of the k-th loop header (1-based)
   @@const <NAME>                         like @@fn, for `const NAME: T = expr;` (R-const)
   @@drop <impl-key>[::<name>] <reason>   item or function not extracted (named drop)
@@ -149,6 +151,9 @@ def parse(path, text=None, sc=None):
                 arg = arg[:m.start()]
             sink = []
             cur_fn.inserts.append((d, arg.strip(), k, sink, origin))
+        elif d == 'end':
+            sink = []
+            cur_fn.inserts.append(('end', '', 1, sink, origin))
         elif d == 'loop':
             sink = []
             cur_fn.loops[int(arg)] = sink
